@@ -204,6 +204,11 @@ func (r *Runner) runMonitors(s *Step, rep *Reply) {
 	if r.Hostile {
 		return
 	}
+	if r.BrokenStateSuffix() == "" {
+		r.Count("requests_monitored_in_clean_state")
+	} else {
+		r.Count("requests_monitored_after_known_defect")
+	}
 	r.monC05(s, rep)
 	r.monC04(s, rep)
 	r.monC09step(s, rep)
